@@ -433,7 +433,7 @@ def lua51_chunk(text):
     return (b"\x1bLuaQ\x00\x01\x04\x08\x04\x08\x00" + f).decode("ascii")
 
 
-def run_attacks(after_another_context=False):
+def run_attacks(after_another_context=False, silent_pages=False):
     """after_another_context: a first context of this process has set up and used its own Lua runtime before the attacked
     one is created (what the sandbox set-up does per runtime must happen for every runtime, not once per process)."""
     out = []
@@ -453,6 +453,12 @@ def run_attacks(after_another_context=False):
     ctx.add_page("Module:warm", 828, "local e = {} function e.f(frame) return 'w' end return e", model="Scribunto")
     ctx.add_page("Module:bcpage", 828, lua51_chunk("RAN-FROM-BYTECODE"), model="Scribunto")
     ctx.add_page("Module:bcpage2", 828, lua51_chunk("RAN-FROM-BYTECODE"), model="Scribunto")
+    if silent_pages:
+        # the page store holds modules named like the host libraries that return nothing (or nil, or false): require() of
+        # such a name must still not hand out the host library
+        for hn, body in (("io", "-- nothing"), ("os", "return nil"), ("python", "local x = 1"), ("package", "-- p"), ("debug", "return"),
+                         ("_G", "-- g"), ("string", "return nil"), ("coroutine", "")):
+            ctx.add_page("Module:" + hn, 828, body, model="Scribunto")
     ctx.start_page("Tt")
     ctx.expand("{{#invoke:warm|f}}")   # initialises the sandbox (this writes the bootstrap page once)
     for name, code in sorted(ATTACKS.items()):
@@ -471,6 +477,8 @@ def run_attacks(after_another_context=False):
             case = {"attack": name, "lua": code[:200]}
             if after_another_context:
                 case["context"] = "second context of the process"
+            if silent_pages:
+                case["page_store"] = "has modules named like host libraries that return nothing"
             out.append(("attack_fails", case, res, "no"))
         after = sorted((p.title, p.body) for p in ctx.get_all_pages() if not p.title.startswith("Module:atk"))
         if after != before:
@@ -518,7 +526,7 @@ def work(payload, skip, report):
         for o, case, ob, ex in res:
             acc.violation(o, case, ob, ex)
     else:
-        res, n = run_attacks(len(payload) > 1 and payload[1] == "second_context")
+        res, n = run_attacks(len(payload) > 1 and payload[1] == "second_context", len(payload) > 1 and payload[1] == "silent_pages")
         acc.case(n)
         acc.count("attacks", n)
         for o, case, ob, ex in res:
@@ -542,6 +550,7 @@ def main(run):
     chunks.append(("loader", [], 3))
     chunks.append(("attacks",))
     chunks.append(("attacks", "second_context"))
+    chunks.append(("attacks", "silent_pages"))
     for part in range(16):
         chunks.append(("helpers", part, 16, 1 if q else 2))
     for cid, acc, hung in run_chunks(work, chunks, nproc=run.nproc, case_timeout=300):
